@@ -4,13 +4,15 @@ import ZvbiModel.Demux.Spec
 -/
 namespace Zvbi.Demux
 
+variable {cfg : SrcCfg}
+
 /-- continue a run with more bytes -/
-def ARes.andThen (r : ARes) (b : Bytes) : ARes :=
-  let r2 := arun r.core (r.pend ++ b)
+def ARes.andThen (cfg : SrcCfg) (r : ARes) (b : Bytes) : ARes :=
+  let r2 := arun cfg r.core (r.pend ++ b)
   { r2 with frames := r.frames ++ r2.frames }
 
-theorem arun_append (a : Bytes) : ∀ (c : Core) (b : Bytes), (arun c a).stop = none →
-    arun c (a ++ b) = (arun c a).andThen b := by
+theorem arun_append (a : Bytes) : ∀ (c : Core) (b : Bytes), (arun cfg c a).stop = none →
+    arun cfg c (a ++ b) = (arun cfg c a).andThen cfg b := by
   induction a with
   | nil =>
     intro c b _
@@ -19,15 +21,15 @@ theorem arun_append (a : Bytes) : ∀ (c : Core) (b : Bytes), (arun c a).stop = 
     intro c b hstop
     rw [List.cons_append]
     by_cases hs : c.skip > 0
-    · have e1 : arun c (x :: (a ++ b)) = arun { c with skip := c.skip - 1 } (a ++ b) := by
+    · have e1 : arun cfg c (x :: (a ++ b)) = arun cfg { c with skip := c.skip - 1 } (a ++ b) := by
         simp [arun, hs]
-      have e2 : arun c (x :: a) = arun { c with skip := c.skip - 1 } a := by
+      have e2 : arun cfg c (x :: a) = arun cfg { c with skip := c.skip - 1 } a := by
         simp [arun, hs]
       rw [e1, e2]
       rw [e2] at hstop
       exact ih _ b hstop
     · by_cases hl : (x :: a).length < c.lookahead
-      · have e2 : arun c (x :: a) = { core := c, pend := x :: a, frames := [], stop := none } := by
+      · have e2 : arun cfg c (x :: a) = { core := c, pend := x :: a, frames := [], stop := none } := by
           simp only [arun, if_neg hs, if_pos hl]
         rw [e2]
         simp [ARes.andThen]
@@ -37,25 +39,25 @@ theorem arun_append (a : Bytes) : ∀ (c : Core) (b : Bytes), (arun c a).stop = 
           rw [← List.cons_append]
           apply List.take_append_of_le_length
           omega
-        have e1 : arun c (x :: (a ++ b)) =
-            (match micro c ((x :: a).take c.lookahead) with
+        have e1 : arun cfg c (x :: (a ++ b)) =
+            (match micro cfg c ((x :: a).take c.lookahead) with
              | (_, fs', outs, some stop) =>
                { core := { c with fs := fs' }, pend := x :: (a ++ b), frames := outs, stop := some stop }
              | ((sk, la), fs', outs, none) =>
-               let r := arun { skip := sk - 1, lookahead := la, fs := fs' } (a ++ b)
+               let r := arun cfg { skip := sk - 1, lookahead := la, fs := fs' } (a ++ b)
                { r with frames := outs ++ r.frames }) := by
           simp only [arun, if_neg hs, if_neg hl', ht]; rfl
-        have e2 : arun c (x :: a) =
-            (match micro c ((x :: a).take c.lookahead) with
+        have e2 : arun cfg c (x :: a) =
+            (match micro cfg c ((x :: a).take c.lookahead) with
              | (_, fs', outs, some stop) =>
                { core := { c with fs := fs' }, pend := x :: a, frames := outs, stop := some stop }
              | ((sk, la), fs', outs, none) =>
-               let r := arun { skip := sk - 1, lookahead := la, fs := fs' } a
+               let r := arun cfg { skip := sk - 1, lookahead := la, fs := fs' } a
                { r with frames := outs ++ r.frames }) := by
           simp only [arun, if_neg hs, if_neg hl]; rfl
         rw [e1, e2]
         rw [e2] at hstop
-        generalize micro c ((x :: a).take c.lookahead) = m at hstop ⊢
+        generalize micro cfg c ((x :: a).take c.lookahead) = m at hstop ⊢
         obtain ⟨⟨sk, la⟩, fs', outs, st⟩ := m
         cases st with
         | some stop => simp at hstop
@@ -70,7 +72,7 @@ def ARes.pre (outs : List FrameOut) (r : ARes) : ARes := { r with frames := outs
 @[simp] theorem ARes.pre_nil (r : ARes) : r.pre [] = r := by cases r; rfl
 
 theorem arun_skip (L : Bytes) : ∀ (k j la : Nat) (fs : FS), k ≤ L.length →
-    arun { skip := k + j, lookahead := la, fs := fs } L = arun { skip := j, lookahead := la, fs := fs } (L.drop k) := by
+    arun cfg { skip := k + j, lookahead := la, fs := fs } L = arun cfg { skip := j, lookahead := la, fs := fs } (L.drop k) := by
   induction L with
   | nil => intro k j la fs h; simp at h; subst h; simp
   | cons x L ih =>
@@ -78,21 +80,21 @@ theorem arun_skip (L : Bytes) : ∀ (k j la : Nat) (fs : FS), k ≤ L.length →
     cases k with
     | zero => simp
     | succ k =>
-      have e : arun { skip := k + 1 + j, lookahead := la, fs := fs } (x :: L)
-          = arun { skip := k + j, lookahead := la, fs := fs } L := by
+      have e : arun cfg { skip := k + 1 + j, lookahead := la, fs := fs } (x :: L)
+          = arun cfg { skip := k + j, lookahead := la, fs := fs } L := by
         have : k + 1 + j - 1 = k + j := by omega
         simp [arun, this]
       rw [e, List.drop_succ_cons]
       exact ih k j la fs (by simpa using h)
 
 theorem arun_short (L : Bytes) : ∀ (c : Core), (c.skip ≥ L.length ∨ (L.drop c.skip).length < c.lookahead) →
-    arun c L = { core := { c with skip := c.skip - L.length }, pend := L.drop c.skip, frames := [], stop := none } := by
+    arun cfg c L = { core := { c with skip := c.skip - L.length }, pend := L.drop c.skip, frames := [], stop := none } := by
   induction L with
   | nil => intro c _; simp [arun]
   | cons x L ih =>
     intro c h
     by_cases hs : c.skip > 0
-    · have e : arun c (x :: L) = arun { c with skip := c.skip - 1 } L := by simp [arun, hs]
+    · have e : arun cfg c (x :: L) = arun cfg { c with skip := c.skip - 1 } L := by simp [arun, hs]
       rw [e, ih]
       · obtain ⟨sk, la, fs⟩ := c
         simp only at hs
@@ -120,17 +122,17 @@ theorem arun_short (L : Bytes) : ∀ (c : Core), (c.skip ≥ L.length ∨ (L.dro
 
 theorem arun_micro (c : Core) (L : Bytes) (sk la : Nat) (fs' : FS) (outs : List FrameOut)
     (h0 : c.skip = 0) (hl : c.lookahead ≤ L.length) (hpos : 0 < L.length)
-    (hm : micro c (L.take c.lookahead) = ((sk, la), fs', outs, none)) (hsk : 1 ≤ sk) :
-    arun c L = (arun { skip := sk, lookahead := la, fs := fs' } L).pre outs := by
+    (hm : micro cfg c (L.take c.lookahead) = ((sk, la), fs', outs, none)) (hsk : 1 ≤ sk) :
+    arun cfg c L = (arun cfg { skip := sk, lookahead := la, fs := fs' } L).pre outs := by
   cases L with
   | nil => simp at hpos
   | cons x L =>
     have hs : ¬ c.skip > 0 := by omega
     have hl' : ¬ (x :: L).length < c.lookahead := by omega
-    have e1 : arun c (x :: L) = (arun { skip := sk - 1, lookahead := la, fs := fs' } L).pre outs := by
+    have e1 : arun cfg c (x :: L) = (arun cfg { skip := sk - 1, lookahead := la, fs := fs' } L).pre outs := by
       simp only [arun, if_neg hs, if_neg hl', hm]; rfl
-    have e2 : arun { skip := sk, lookahead := la, fs := fs' } (x :: L)
-        = arun { skip := sk - 1, lookahead := la, fs := fs' } L := by
+    have e2 : arun cfg { skip := sk, lookahead := la, fs := fs' } (x :: L)
+        = arun cfg { skip := sk - 1, lookahead := la, fs := fs' } L := by
       have : sk > 0 := by omega
       simp [arun, this]
     rw [e1, e2]
